@@ -159,13 +159,15 @@ def classify_ast_diff(src, d):
         return "fmt-float-printed-without-fraction"
     if isinstance(a, str) and isinstance(b, str) and ("'" in a and '"' in a):
         return "fmt-string-mixed-quotes"
+    if path.endswith("/Binary") and a is None and isinstance(b, dict) and b.get("op") == "Pow" and '"Range"' in json.dumps(b):
+        return "fmt-range-bound-pow-not-parenthesised"      # a Range with a `**` bound came back as `**` over a Range
     if re.search(r"/Func/named_params/\d+/ty$", path) and b is None:
         return "fmt-named-param-type-dropped"
     return None
 
 
 def classify_text(formatted):
-    if re.search(r"\.\.\S+ \*\* ", formatted):
+    if re.search(r"\.\.\S+ \*\* ", formatted) or re.search(r" \*\* \S+\.\.", formatted):
         return "fmt-range-bound-pow-not-parenthesised"
     return None
 
@@ -361,7 +363,10 @@ def check_sources(ctx, sources, compile_too):
             same = (comp.get("sql") == comp2.get("sql")) and (("sql" in comp) == ("sql" in comp2))
             if "sql" not in comp and "sql" not in comp2:
                 same = [e.get("reason") for e in comp.get("errors", [])] == [e.get("reason") for e in comp2.get("errors", [])]
-            if not same:
+            if not same and any("out of bounds of the source" in str(x.get("panic", "")) for x in (comp, comp2)):
+                ctx.oracle_failure("compile-panics-composing-error-after-multibyte", "compile panics while composing an error message after multi-byte text (one of source / formatted source)",
+                                   {**replay, "sql": comp, "sql_formatted": comp2})
+            elif not same:
                 ctx.oracle_failure(None, "source and formatted source compile differently", {**replay, "sql": comp, "sql_formatted": comp2})
     return out
 
